@@ -76,7 +76,9 @@ def reference(case, objs, diag):
     k = _np(case["ds"].psf.native)
     C = ref.conv_matrix(case["m"], k)
     Ms = [np.asarray(o.mapping_matrix, float) for o in objs]
-    B = C @ np.hstack(Ms)
+    # an object that supplies its operated columns itself (operated_mapping_matrix_override) contributes exactly those columns
+    B = np.hstack([np.asarray(o.operated_mapping_matrix_override, float) if getattr(o, "operated_mapping_matrix_override", None) is not None
+                   else C @ M for o, M in zip(objs, Ms)])
     d = case["d"][~case["m"]]
     nz = case["noise"][~case["m"]]
     D = B.T @ (d / nz ** 2)
